@@ -66,9 +66,6 @@ def tweezer(self):
         fold: bool = True,
         arch_spec: spec_module.ArchSpec | None = None,
     ) -> None:
-        if arch_spec is not None:
-            InjectSpecsPass(self, arch_spec=arch_spec, fold=False)(mt)
-
         if isinstance(mt.code, func.Function):
             new_code = action.TweezerFunction(
                 sym_name=mt.code.sym_name,
@@ -83,6 +80,11 @@ def tweezer(self):
 
         typeinfer_pass(mt)
         action_desugar_pass.rewrite(mt.code)
+
+        # the injection folds the kernel, which lifts inner closures out of the body:
+        # it has to come after the rewrites that walk the body
+        if arch_spec is not None:
+            InjectSpecsPass(self, arch_spec=arch_spec, fold=False)(mt)
 
         if fold:
             fold_pass(mt)
